@@ -19,8 +19,10 @@ MARKER_VARIANTS = {
     "//": ["// nocl", "//nocl", "/* nocl */", "// NOCL", "/* NoCl generated */", "//  nocl: legacy"],
 }
 DECOY_VARIANTS = {
-    "#": ["# see nocl", "# this is not nocl", "# TODO nocl?"],
-    "//": ["// see nocl", "/* not a nocl marker */", "// x nocl"],
+    # the marker must follow the comment LEADER (#, //, /*) directly: a second leader character in between makes
+    # it a comment that merely contains the word
+    "#": ["# see nocl", "# this is not nocl", "# TODO nocl?", "## nocl", "#; nocl", "#: nocl generated"],
+    "//": ["// see nocl", "/* not a nocl marker */", "// x nocl", "/// nocl", "/** nocl */", "//* nocl", "/* * nocl */"],
 }
 
 
@@ -30,8 +32,11 @@ def styles(lang):
     if d["block"]:
         out.append(f"{d['block'][0]} note 2 {d['block'][1]}")
         out.append("/** doc note */")
+        out.append("/** nocl is only a word here */")  # not the marker: the leader is /*, the text starts with *
+        out.append("/// nocl as a word")
     else:
         out.append(d["line"] + "note-without-space")
+        out.append(d["line"] * 2 + " nocl as a word")    # "## nocl ..": after the leader # comes another #
     return out
 
 
